@@ -1,7 +1,7 @@
 """C03 - "Detection always terminates": the wrap-and-reparse loop of Execer._parse_ctx_free._try_parse.
 
 Every iteration either leaves the loop (parsed, or an error is raised) or consumes one unit of a retry budget fixed before the loop
-(2 x lines + 10).  The body of the `try:` statement - parser call, error analysis, wrapping - is ABSTRACTED here: it may raise, may
+(2 x (lines + chain operators) + 10 since fix dde0af8).  The body of the `try:` statement - parser call, error analysis, wrapping - is ABSTRACTED here: it may raise, may
 change the text and the bookkeeping locals, but it cannot touch the budget (it never assigns it: checked syntactically by the
 engine's assigned-names analysis on the real source).  What is NOT proved: that each parser / lexer / helper call inside the body
 terminates, and the depth-1 recursion on a logical line (guarded by `not logical_input`)."""
@@ -18,8 +18,9 @@ def _the_try(node, fv):
 contract(
     EX + "Execer._parse_ctx_free._try_parse", "C03", params=dict(input=Str, greedy=Bool),
     globals={"logical_input": Bool, "self": Opaque("execer"), "mode": Str, "filename": Str},
-    externals={"starting_whitespace": Ext(ret=Str, pure=True), "str.splitlines": Ext(ret=Seq(Str), pure=True)},
-    locals={"max_retries": Int, "parsed": Bool, "last_error_line": Int, "last_error_col": Int, "original_error": Union(NoneT, Opaque("exc")), "tree": Opaque("tree"),
+    externals={"starting_whitespace": Ext(ret=Str, pure=True), "str.splitlines": Ext(ret=Seq(Str), pure=True),
+               "re.findall": Ext(ret=Seq(Str), pure=True, note="the chain operators of the input (a finite list)")},
+    locals={"max_retries": Int, "n_segments": Int, "parsed": Bool, "last_error_line": Int, "last_error_col": Int, "original_error": Union(NoneT, Opaque("exc")), "tree": Opaque("tree"),
             "beg_spaces": Str},
     abstract=[dict(match=_the_try, may_raise=True, reason="one parse attempt and, on a SyntaxError, one wrapping step (may raise, may rewrite the text; never assigns the retry budget)")],
     loops={"while#1": dict(invariant={"the-budget-never-goes-negative": "max_retries >= 0"}, variant="max_retries", defined=["tree"])},
